@@ -208,7 +208,9 @@ def fam_files(ctx, rng):
     used = sorted({i for fc in f for i in fc})
     remap = {o: n for n, o in enumerate(used)}
     v = [v[i] for i in used]; f = [tuple(remap[i] for i in fc) for fc in f]
-    pts = [P3((p[0] * 1.0000001 + 1e-7 / 3, p[1] / 3.0, 0.1 * p[0] - 0.7 * p[1])) for p in v]
+    # full-precision coordinates; some meshes are small (all coordinates well below 1), some sit far from the origin
+    k_ = rng.choice([1.0, 1.0, 0.01, 0.001, 37.0])
+    pts = [P3(((p[0] * 1.0000001 + 1e-7 / 3) * k_, p[1] / 3.0 * k_, (0.1 * p[0] - 0.7 * p[1]) * k_)) for p in v]
     m = Mesh3D(pts, f)
     d = tempfile.mkdtemp(prefix='lbgverif_')
     desc = {'vertices': [tuple(p) for p in pts], 'faces': [list(x) for x in f], 'mode': mode}
@@ -251,7 +253,7 @@ def fam_files(ctx, rng):
             if len(got) != len(tris):
                 ctx.violation('files.stl:%s:face_count' % mode, '%d triangles expected, %d read back' % (len(tris), len(got)), desc)
             else:
-                sc = max(1.0, max(abs(c) for p in pts for c in p))
+                sc = max(abs(c) for p in pts for c in p)            # relative to the size of the mesh itself (no floor at 1)
                 for a, b in zip(got, tris):
                     if any(max(abs(x - y) for x, y in zip(p, tuple(q_))) > 2e-6 * sc for p, q_ in zip(a, b)):
                         ctx.violation('files.stl:%s:roundtrip' % mode, 'STL triangle %r expected %r' % (a, [tuple(x) for x in b]), desc); break
@@ -261,7 +263,43 @@ def fam_files(ctx, rng):
         shutil.rmtree(d, ignore_errors=True)
 
 
-FAMILIES = [(fam_grid, 90), (fam_removal, 60), (fam_files, 30)]
+def fam_concave_quads(ctx, rng):
+    """Mesh2D.triangulated on a mesh holding a concave (dart) quad, the re-entrant corner at each of the four positions of the face tuple
+    and both windings: the two triangles cover the quad (areas add up, one orientation) and per-face colours stay aligned"""
+    w, h = G.dy(rng.uniform(2, 8)), G.dy(rng.uniform(2, 8)); t = G.dy(rng.uniform(0.2, 0.7) * h); ox, oy = G.rpt2(rng, 30)
+    dart = [(ox, oy), (ox + w, oy + t), (ox + 2 * w, oy), (ox + w, oy + h)]        # re-entrant corner at index 1
+    extra = (ox + 3 * w, oy + h)
+    for k in range(4):
+        for rev in (False, True):
+            q = dart[k:] + dart[:k]
+            if rev:
+                q = q[::-1]
+            verts = q + [extra]
+            # the triangle shares the dart's vertex (ox + 2w, oy) and (ox + w, oy + h)
+            i2 = q.index((ox + 2 * w, oy)); i3 = q.index((ox + w, oy + h))
+            faces = [(0, 1, 2, 3), (i2, 4, i3)]
+            m = Mesh2D([P2(p) for p in verts], faces)
+            desc = {'vertices': verts, 'faces': faces, 'reflex_position': q.index((ox + w, oy + t))}
+            ctx.count('removal.triangulated.dart', key=(q.index((ox + w, oy + t)), rev), sample=desc, nontrivial=True)
+            try:
+                r = m.triangulated()
+            except Exception as e:
+                ctx.violation('removal.triangulated:dart:raises', '%r' % (e,), desc); return
+            fq = [X.fpt(p) for p in q]
+            quad_area = X.area(fq)
+            tri_area = X.area([X.fpt(verts[i]) for i in faces[1]])
+            got = [X.shoelace2([X.fpt(tuple(r.vertices[i])) for i in fc]) / 2 for fc in r.faces]
+            if len(r.faces) != 3 or any(len(fc) != 3 for fc in r.faces):
+                ctx.violation('removal.triangulated:dart:count', '%d faces after triangulating a quad and a triangle' % len(r.faces), desc); return
+            if sum(abs(a) for a in got) != quad_area + tri_area:
+                ctx.violation('removal.triangulated:dart:area', 'triangles of the concave quad (re-entrant corner at position %d) do not cover it: total %r, expected %r' % (
+                    desc['reflex_position'], float(sum(abs(a) for a in got)), float(quad_area + tri_area)), desc); return
+            sq = X.shoelace2(fq)
+            if any((a > 0) != (sq > 0) for a in got[:2]):
+                ctx.violation('removal.triangulated:dart:orientation', 'a triangle of the split quad is wound against the quad', desc); return
+
+
+FAMILIES = [(fam_grid, 90), (fam_removal, 60), (fam_concave_quads, 6), (fam_files, 30)]
 
 
 def explore(ctx):
